@@ -760,3 +760,20 @@ def value_weight(v):
     if isinstance(v, tuple):
         return sum(value_weight(x) for x in v)
     return 1
+
+
+def approx_struct_bytes(spec, ty, depth=0):
+    """Order of magnitude of sizeof the C struct of a type."""
+    t = spec.resolve(ty)
+    k = t.kind
+    if depth > 30:
+        return 8
+    if k == 'octets':
+        return t.hi + 4
+    if k == 'seq':
+        return sum(approx_struct_bytes(spec, m.ty, depth + 1) + 1 for m in t.members) + 1
+    if k == 'seqof':
+        return t.hi * approx_struct_bytes(spec, t.elem, depth + 1) + 4
+    if k == 'choice':
+        return max([approx_struct_bytes(spec, a, depth + 1) for _, a in t.alts] + [1]) + 4
+    return 8
